@@ -224,6 +224,7 @@ const (
 	fReadErr
 	fWMode
 	fFloat // FP term when the file holds a float text (then fGarbage is true for integer reads)
+	fWrites // number of write calls on this path so far
 )
 
 func (e *Engine) filesCell(st *State) int {
@@ -237,7 +238,7 @@ func (e *Engine) fileGet(st *State, path string) *StructV {
 			return en.V.(*StructV)
 		}
 	}
-	return &StructV{F: []Value{smt.False, smt.IntC(0), smt.False, smt.False, smt.IntC(0), Opaque{What: "nofloat"}}}
+	return &StructV{F: []Value{smt.False, smt.IntC(0), smt.False, smt.False, smt.IntC(0), Opaque{What: "nofloat"}, smt.IntC(0)}}
 }
 
 func (e *Engine) fileSet(st *State, path string, f *StructV) {
@@ -331,6 +332,9 @@ func registerFiles(e *Engine) {
 		ok := smt.And(f.F[fExists].(*smt.Term), smt.Not(f.F[fGarbage].(*smt.Term)))
 		return one(st, smt.Ite(ok, f.F[fValue].(*smt.Term), smt.IntC(-1)))
 	})
+	e.reg(z+"FileWrites", func(c *CallCtx, st *State, args []Value) []Outcome {
+		return one(st, c.E.fileGet(st, c.E.pathArg(args[0], "FileWrites")).F[fWrites])
+	})
 	e.reg(z+"FileFault", func(c *CallCtx, st *State, args []Value) []Outcome {
 		p := c.E.pathArg(args[0], "FileFault")
 		f := c.E.fileGet(st, p)
@@ -367,6 +371,8 @@ func registerFiles(e *Engine) {
 		en := c.E
 		p := en.pathArg(args[1], "WriteIntToFile")
 		f := en.fileGet(st, p)
+		f = with(f, fWrites, smt.Add(f.F[fWrites].(*smt.Term), smt.IntC(1)))
+		en.fileSet(st, p, f)
 		wm := f.F[fWMode].(*smt.Term)
 		conds := []*smt.Term{smt.Eq(wm, smt.IntC(0)), smt.Eq(wm, smt.IntC(1)), smt.Not(smt.Or(smt.Eq(wm, smt.IntC(0)), smt.Eq(wm, smt.IntC(1))))}
 		sts := en.forkStates(st, conds)
